@@ -26,12 +26,12 @@ def day0 (z : Zoned) : Res Int :=
 def ordinal0 (z : Zoned) : Res Int :=
   (overflowing_naive_local z).bind fun l => pred32 l.date.ordinal
 
-/-- `Datelike::quarter` (default): `(self.month() - 1).div_euclid(3) + 1` -/
-def quarter (z : Zoned) : Res Int :=
+/-- (named `quarter_v`/`year_ce_v` here: C08 models the same defaults as `Zoned.quarter`/`Zoned.year_ce` in Model/MonthsOps) `Datelike::quarter` (default): `(self.month() - 1).div_euclid(3) + 1` -/
+def quarter_v (z : Zoned) : Res Int :=
   (month z).bind fun m => (pred32 (m : Int)).bind fun p => .ok (p / 3 + 1)
 
 /-- `Datelike::year_ce` (default): `(false, (1 - year) as u32)` before year 1, else `(true, year as u32)` -/
-def year_ce (z : Zoned) : Res (Bool × Int) :=
+def year_ce_v (z : Zoned) : Res (Bool × Int) :=
   (year z).bind fun y =>
   if y < 1 then (ckI32 (1 - y)).bind fun v => .ok (false, asU32 v) else .ok (true, asU32 y)
 
